@@ -28,7 +28,7 @@ class Contract:
                  raises=None, may_raise=(), modifies=(), loops=None, inline=False,
                  trusted=False, pure=False, stable=(), ghost=None, prop=(), note='',
                  body_types=None, allow_exc=(), allocates=(), is_property=False,
-                 is_static=False, is_classmethod=False):
+                 is_static=False, is_classmethod=False, repeatable=False):
         self.key = key
         self.params = list(params)              # [(name, type, default-or-None)]
         self.returns = returns
@@ -52,6 +52,7 @@ class Contract:
         self.is_property = is_property
         self.is_static = is_static
         self.is_classmethod = is_classmethod
+        self.repeatable = repeatable           # every ensures clause is stable under repeated calls
 
     def param_names(self):
         return [p[0] for p in self.params]
